@@ -122,4 +122,14 @@ PROPS = {
         "assumptions": ["a missing trailing Z(4) in temp is recorded as an observation, not judged (servers verify the proof over the bytes sent)"],
         "floor": {"quick": 10000, "thorough": 1000000},
     },
+    "C16": {
+        "modes": ["dbg", "rel"],
+        "level": "fault_enumeration",
+        "technique": "runtime monitoring: lock-step differential against an independent MS-NLMP sealing/signing implementation over interleaved wrap/unwrap histories; exhaustive single-bit tampering of sealed messages on replayed clone points",
+        "level_text": "The client's security context - built by a real NTLM handshake (the reference recovers the session key from the token) or directly from mirrored keys - and the reference contexts are advanced in lock-step through histories of 1..12 wrap/unwrap operations with message lengths 0..300; every message the client seals must be byte-identical to the reference seal at that point of the sequence, every message sealed by the reference peer must unseal to its plaintext. For every peer message of length <= 64 every single-bit flip is tried, plus every truncation, 1..16-byte extensions, version and sequence-number substitutions, the same bit flipped in two checksum bytes and swapped checksum bytes; each tamper runs on a fresh context replayed to that position and must be rejected.",
+        "level_note": "Trusted: refs::ntlm::Direction (MD5 key derivation with the MS-NLMP magic constants, RC4 state carried across messages, HMAC-MD5 signature). 128-bit keys with key exchange and extended session security only (what the client requests).",
+        "rule": ("cases = (session key, history of wrap/unwrap operations); per unwrap operation the tamper set above; distinct = hash of the case; all non-trivial. Evidence counts tampered messages tried and rejected."),
+        "assumptions": [],
+        "floor": {"quick": 2000, "thorough": 100000},
+    },
 }
